@@ -53,6 +53,11 @@ SHAPES = [
      '(a if k else d)', [], ['[1], {}, True', '[None], {}, True', '[], {1: None}, False', '[], {1: 1}, False']),
     # children all ignorable: the rejection (wrong length / implicit Counter value hint) is not attributable to a child
     ('TupleFixed_Any_object', 'Tuple[Any, object]', [('a', LOI)], 'tuple(a)', ['len(a) <= 3'], ['[1, 2]', '[1]', '[]', '[1, None, 2]']),
+    # ignorable and unignorable children side by side: the length the explanation compares against is the number of
+    # *positions*, not of checked children
+    ('TupleFixed_int_Any', 'Tuple[int, Any]', [('a', LOI)], 'tuple(a)', ['len(a) <= 3'], ['[1, 2]', '[1]', '[]', '[None, 2]', '[1, None, 2]']),
+    ('TupleFixed_object_int_Any', 'Tuple[object, int, Any]', [('a', LOI)], 'tuple(a)', ['len(a) <= 4'],
+     ['[1, 2, 3]', '[1]', '[1, 2]', '[]', '[None, None, 2]', '[1, 2, 3, 4]']),
     ('List_TupleFixed_Any', 'List[Tuple[Any, Any]]', [('n1', 'int'), ('n2', 'int')],
      '[((), (1,), (1, 2), (1, 2, 3))[n1], ((), (1,), (1, 2), (1, 2, 3))[n2]]', ['0 <= n1 <= 3', '0 <= n2 <= 3'], ['2, 2', '1, 2', '2, 0']),
     ('Union_int_TupleFixed_object', 'Union[int, Tuple[object, object]]', [('a', LOI), ('k', 'bool')], '(tuple(a) if k else 3)', ['len(a) <= 3'],
@@ -74,7 +79,7 @@ CONFS = {
     'On': {'strategy': 'On'},
 }
 
-QUICK = [('TupleFixed_Any_object', 'default'), ('TupleFixed_Iterable_int', 'default'), ('List_int', 'default'), ('Dict_int_int_value', 'warn'),
+QUICK = [('TupleFixed_Any_object', 'default'), ('TupleFixed_int_Any', 'default'), ('TupleFixed_Iterable_int', 'default'), ('List_int', 'default'), ('Dict_int_int_value', 'warn'),
          ('Iterable_int_list', 'default'), ('Optional_int', 'exc'), ('Mapping_int_Listint', 'default'),
          ('TupleFixed_int_bool', 'mixed'), ('Sequence_int_user', 'retwarn'), ('Set_int', 'default'),
          ('Reversible_int_seq', 'nonrandom'), ('KeysView_int', 'default'), ('Annotated_int_vale', 'minimal')]
